@@ -126,6 +126,20 @@ Theorem str_slice_prefix_refuted :
   slen straddle66 = 66 /\ str_to_addr_prefix_tolerant straddle66 = Panic /\ str_to_addr straddle66 = Err 1.
 Proof. exact str_slice_prefix_refuted_lemma. Qed.
 
+(* merging the file's entry into the in-memory entry of the same address: saturating u32 sums (restarted at
+   the maximum), so no counter value -- 0, 1, u32::MAX-1, u32::MAX -- can overflow; with plain `+=` it would *)
+Theorem sync_counters_bounded : forall self other,
+  a_s self <= U32MAX -> a_f self <= U32MAX ->
+  a_s (arec_sync self other) <= U32MAX /\ a_f (arec_sync self other) <= U32MAX.
+Proof. exact arec_sync_bounded_lemma. Qed.
+
+Theorem sync_wrapping_refuted :
+  let file := mk 1 1 pA 4294967295 0 10 in let mem := mk 1 1 pA 1 0 20 in
+  arec_sync_unchecked Debug mem file = Panic /\
+  (exists r, arec_sync_unchecked Release mem file = Ok r /\ a_s r = 0) /\
+  arec_sync mem file = mk 1 1 pA 1 0 20.
+Proof. exact sync_wrapping_refuted_lemma. Qed.
+
 Theorem no_panic_registry_load : forall (A : Type) (parse : string -> option A) f,
   registry_load parse f <> Panic.
 Proof. exact @no_panic_registry_load_lemma. Qed.
